@@ -141,7 +141,7 @@ def replay_before_service(ctx, p):
         return
     rp = oi.call_sites('db::DbInner::replay_all_logs')
     cr = oi.call_sites('log::Log::clear_replay_logs')
-    ca = oi.call_sites('db::DbInner::clean_all_logs')
+    ca = lib.must_sites(oi, ['log::Log::clean_logs'])      # direct or through clean_all_logs
     kl = oi.call_sites('log::Log::kill_logs')
     it = lib.sites_reaching(oi, ['column::HashColumn::init_table_data', 'table::ValueTable::init_table_data'])
     sp = oi.call_sites('re:^std::thread::spawn', 're:thread::Builder.*::spawn')
